@@ -2,6 +2,7 @@ package main
 
 import (
 	"bufio"
+	"encoding/hex"
 	"fmt"
 	"os"
 	"sort"
@@ -34,7 +35,10 @@ func cmdViews() {
 				nt = 1
 			}
 			fmt.Fprintf(w, "SYM %d %d %d %d %d 0 %s %s\n", s.ID, nt, s.Value, s.Prec, int(s.PrecType), q(s.Name), q(s.Tag))
+			// the spelling DrawGrammar uses for this symbol (the model's `names` function)
+			fmt.Fprintf(w, "DNAME %d %s\n", s.ID, hex.EncodeToString([]byte(utils.EscapeDotGraph(utils.RemoveTempName(s.Name)))))
 		}
+		fmt.Fprintf(w, "WANTDOT\n")
 		for i, ru := range g.ProductoinRules {
 			var rhs []int
 			for _, s := range ru.RighPart {
@@ -80,6 +84,20 @@ func cmdViews() {
 		if pv != nil {
 			fmt.Fprintf(w, "DOTPANIC %s\n", oneLine(fmt.Sprint(pv)))
 		}
+		// hex forms for the comparison with the Lean views model
+		_, _ = capture(func() {
+			gr := v.DrawGrammar(v.GTable)
+			for _, n := range gr.Nodes.Nodes {
+				filled := 0
+				if n.Attrs["style"] == "filled" {
+					filled = 1
+				}
+				nodes = append(nodes, fmt.Sprintf("HDOTNODE %s %d %s", n.Name, filled, hex.EncodeToString([]byte(n.Attrs["label"]))))
+			}
+			for _, e := range gr.Edges.Edges {
+				edges = append(edges, fmt.Sprintf("HDOTEDGE %s %s %s", e.Src, e.Dst, hex.EncodeToString([]byte(e.Attrs["label"]))))
+			}
+		})
 		for _, l := range nodes {
 			fmt.Fprintln(w, l)
 		}
